@@ -18,9 +18,9 @@
 //
 //	<PkgHash>|<entry>,<entry>...     entry = <name hex>:<isdir>:<info ok>:<size>:<mtime ns>   ("-" if none)
 //
-// blank-separated, then TAB and the verdict of the direct oracle: the hash must differ between two
-// consecutive steps exactly when the set {(name,size,mtime)} of compilable, non-underscore,
-// non-directory entries differs (computed here, independently of dirHash).
+// blank-separated, then TAB and the verdict of the direct oracle: the hashes of two steps of the
+// history (step 0 = the empty directory) must differ exactly when the sets {(name,size,mtime)} of
+// compilable, non-underscore, non-directory entries differ (computed here, independently of dirHash).
 // The case "INFO" prints: go version hex, xgo version hex, class extensions (hex, comma separated).
 package main
 
@@ -213,7 +213,7 @@ func (w *world) runCase(self bool, ops []string) (out string, oracle string) {
 	}()
 	pkgPath := w.mod.Path() + "/" + pkg
 	var steps []string
-	prevHash, prevSet := "", ""
+	var hashes, sets []string
 	for i := -1; i < len(ops); i++ {
 		if i >= 0 {
 			applyOp(dir, ops[i])
@@ -224,15 +224,16 @@ func (w *world) runCase(self bool, ops []string) (out string, oracle string) {
 			return "UNSTABLE", "directory changed during the step"
 		}
 		set := w.relset(es)
-		if i >= 0 && oracle == "" {
+		// against every earlier step (the previous one first): same sources <=> same hash
+		for j := len(hashes) - 1; j >= 0 && oracle == ""; j-- {
 			switch {
-			case set != prevSet && h == prevHash:
-				oracle = fmt.Sprintf("step%d:%s:sources-changed-hash-unchanged", i, ops[i])
-			case set == prevSet && h != prevHash:
-				oracle = fmt.Sprintf("step%d:%s:hash-changed-sources-unchanged", i, ops[i])
+			case set != sets[j] && h == hashes[j]:
+				oracle = fmt.Sprintf("steps%d,%d:sources-differ-hash-equal", j, i+1)
+			case set == sets[j] && h != hashes[j]:
+				oracle = fmt.Sprintf("steps%d,%d:hash-differs-sources-equal", j, i+1)
 			}
 		}
-		prevHash, prevSet = h, set
+		hashes, sets = append(hashes, h), append(sets, set)
 		steps = append(steps, h+"|"+showEnts(es))
 	}
 	return strings.Join(steps, " "), oracle
